@@ -717,25 +717,49 @@ def build(desc, shared=None):
         objs["constraints"][key] = o
         return o
 
+    def framed(ctor, *args, **kw):
+        """call a block constructor and check its frame condition on the way: list arguments handed in by the caller and the
+        constructor's own default argument values are left as they were (C18: nothing outside the new block is written)"""
+        import copy as _copy
+        import inspect as _inspect
+        lists = [(i, a, list(a), [list(x) if isinstance(x, list) else x for x in a]) for i, a in enumerate(args) if isinstance(a, list)]
+        init = ctor.__init__
+        before = [_copy.copy(d) if isinstance(d, (list, dict, set)) else d for d in (init.__defaults__ or ())]
+        blk = ctor(*args, **kw)
+        for i, a, shallow, deep in lists:
+            now = [list(x) if isinstance(x, list) else x for x in a]
+            if len(a) != len(shallow) or any(x is not y for x, y in zip(a, shallow)) or any(isinstance(d, list) and d != n for d, n in zip(deep, now)):
+                objs.setdefault("frame", []).append(f"{ctor.__name__}: list argument #{i} was modified by the constructor (length {len(shallow)} -> {len(a)})")
+        after = list(init.__defaults__ or ())
+        for j, (b_, a_) in enumerate(zip(before, after)):
+            if isinstance(b_, (list, dict, set)) and b_ != a_:
+                objs.setdefault("frame", []).append(f"{ctor.__name__}.__init__: default value of parameter #{j} changed from {b_!r} to a value of length {len(a_)}")
+        return blk
+
     def mk(node, path):
         k = node["kind"]
         cons = [get_constraint(c, path) for c in node.get("constraints", [])]
+        if objs.get("share_lists") and cons:
+            # a user who writes `cs = [...]` once and hands the same list to several constructors
+            cons = objs.setdefault("lists", {}).setdefault(repr(node.get("constraints")), cons)
         if k == "cross":
-            return sp.CrossBlock([get_factor(f) for f in node["design"]], [get_factor(f) for f in node["crossing"]], cons, node.get("rcc", True))
+            return framed(sp.CrossBlock, [get_factor(f) for f in node["design"]], [get_factor(f) for f in node["crossing"]], cons, node.get("rcc", True))
         if k == "multi":
-            return sp.MultiCrossBlock([get_factor(f) for f in node["design"]], [[get_factor(f) for f in c] for c in node["crossings"]], cons,
-                                      node.get("rcc", True), mode=node.get("mode", "equal"), alignment=node.get("alignment", "equal preamble"))
+            return framed(sp.MultiCrossBlock, [get_factor(f) for f in node["design"]], [[get_factor(f) for f in c] for c in node["crossings"]], cons,
+                          node.get("rcc", True), mode=node.get("mode", "equal"), alignment=node.get("alignment", "equal preamble"))
         if k == "repeat":
-            return sp.Repeat(mk(node["block"], path + "/b"), cons)
+            return framed(sp.Repeat, mk(node["block"], path + "/b"), cons)
+        # Merge and Nest declare `constraints=[]`: like a user, leave the argument out when there is nothing to pass
+        opt = [cons] if cons else []
         if k == "merge":
             kw = {}
             if "mode" in node:
                 kw["mode"] = node["mode"]
             if node.get("alignment") is not None:
                 kw["alignment"] = node["alignment"]
-            return sp.Merge([mk(b, f"{path}/{i}") for i, b in enumerate(node["blocks"])], cons, **kw)
+            return framed(sp.Merge, [mk(b, f"{path}/{i}") for i, b in enumerate(node["blocks"])], *opt, **kw)
         if k == "nest":
-            return sp.Nest(mk(node["outer"], path + "/o"), mk(node["inner"], path + "/i"), cons)
+            return framed(sp.Nest, mk(node["outer"], path + "/o"), mk(node["inner"], path + "/i"), *opt)
         raise Unsupported(k)
     return mk(desc["block"], ""), objs
 
